@@ -49,7 +49,7 @@ fsgroup  == <<dir, ino, lver, committed, cmarks, lastRead, tabHist, viol>>
 apigroup == <<pending, acked, failed, crashed>>
 fsvars   == <<fsgroup, apigroup>>
 
-NoCall == [op |-> "none", txn |-> 0, marks |-> {}]
+NoCall == [op |-> "none", txn |-> 0, marks |-> {}, norecs |-> FALSE]
 NoTab  == [min |-> 0, max |-> 0, txns |-> <<>>, hash |-> "none", refs |-> <<>>]
 
 (* kinds of inode *)
@@ -179,7 +179,8 @@ FsCall(h, c) ==
   /\ UNCHANGED <<acked, failed, crashed>>
 
 (* res \in {"ok", "lock", "rejected", "other", "panic"}.  A transaction     *)
-(* without records (marks = {}) is not tracked: it can never be committed.  *)
+(* without marker refs (marks = {}) is not tracked.  norecs: the transaction *)
+(* writes no record at all - it can never be committed nor refused.        *)
 FsReturn(h, res) ==
   LET c == pending[h]  tracked == c.txn # 0 /\ c.marks # {} IN
   /\ pending' = [pending EXCEPT ![h] = NoCall]
@@ -190,7 +191,7 @@ FsReturn(h, res) ==
 (* clauses about a return value; the caller adds them to viol *)
 ReturnViol(h, res) ==
      FlagIf(res \notin {"ok", "lock", "rejected"}, "C04_OtherFailure")
-  \cup FlagIf(pending[h].txn # 0 /\ pending[h].marks = {} /\ pending[h].op # "abort" /\ res \notin {"ok", "lock"}, "C04_EmptyTxnFailed")   \* ("abort": the caller itself gave up)
+  \cup FlagIf(pending[h].txn # 0 /\ pending[h].norecs /\ pending[h].op # "abort" /\ res \notin {"ok", "lock"}, "C04_EmptyTxnFailed")   \* ("abort": the caller itself gave up)
   \cup FlagIf(pending[h].op \in {"close", "clean"} /\ res \notin {"ok", "lock"}, "C16_GcFailed")
 
 FsCrash(h) ==
